@@ -4,7 +4,7 @@ import ShuttleModel.Prim.Base
 
   Two layers:
   * pure atomic transitions on `SemState` (`acquirePermits`, `unblockFront`, `releasePure`,
-    `closePure`, `removeWaiterPure`, `reblockEffs`, `pollCore`) that return the new state plus the
+    `closePure`, `removeWaiterPure`, `reblockEffs`, `pollPure`) that return the new state plus the
     kernel side effects (`Eff`) the Rust code performs inside the same `ExecutionState::with`
     region — these are what the C18/C04 theorems talk about;
   * `Prog` wrappers (`tryAcquire`, `release`, `close`, `poll`, `dropAcquire`, `acquireBlocking`,
@@ -266,6 +266,54 @@ def newAcquire (L : Lens U SemState) (n : Nat) : Prog U Nat := do
   K.setL L s'
   pure wid
 
+/-- result of the atomic part of `Acquire::poll` (everything after its optional scheduling point):
+the poll result, the clock handed to `update_clock` when permits were taken, and the kernel
+effects, in the order the Rust code performs them (`update_clock` first) -/
+structure PollOut where
+  s : SemState
+  res : PollRes
+  pc : Option Clock := none
+  effs : List Eff := []
+
+/-- the state update of `Acquire::poll` after its optional `thread::switch()`: `me` = the polling
+task, `cxTask` = the task `cx.waker()` belongs to, `myClock` = `current::clock()`, `fin t` = task
+`t` has finished -/
+def _root_.ShuttleModel.SemState.pollPure (s : SemState) (wid me cxTask : Nat) (myClock : Clock)
+    (fin : Nat → Bool) : Except String PollOut :=
+  match s.getW wid with
+  | none => .error "poll: unknown Acquire"
+  | some w =>
+    let w := { w with neverPolled := false }
+    if w.hasPermits then
+      if w.isQueued then .error "assertion failed: !self.waiter.is_queued"
+      else .ok { s := s.setW { w with completed := true }, res := .ready true }
+    else if s.closed then
+      if w.isQueued then .error "assertion failed: !self.waiter.is_queued"
+      else .ok { s := s.setW { w with completed := true }, res := .ready false }
+    else if w.isQueued != w.waker.isSome then
+      .error "assertion `left == right` failed (is_queued vs waker)"
+    else if !(s.fair && w.isQueued) then
+      match s.acquirePermits w.n myClock with
+      | .error msg => .error msg
+      | .ok (.ok (s', pc)) =>
+        let s1 := s'.setW w
+        match (if w.isQueued then s1.removeWaiterPure fin wid else .ok (s1, [])) with
+        | .error msg => .error msg
+        | .ok (s3, effs) =>
+          match s3.getW wid with
+          | none => .error "poll: unknown Acquire"
+          | some w4 =>
+            let s5 := s3.setW { w4 with hasPermits := true, completed := true, neverPolled := false }
+            .ok { s := s5, res := .ready true, pc := some pc, effs := effs ++ s5.reblockEffs fin }
+      | .ok (.error .noPermits) =>
+        let w' := { w with waker := some cxTask, taskId := me }
+        if !w.isQueued then
+          .ok { s := { s with queue := s.queue ++ [wid] }.setW { w' with isQueued := true }, res := .pending }
+        else .ok { s := s.setW w', res := .pending }
+      | .ok (.error .closed) => .error "internal error: entered unreachable code"
+    else
+      .ok { s := s.setW { w with waker := some cxTask, taskId := me }, res := .pending }
+
 /-- `Acquire::poll` with `cx.waker()` belonging to task `cxTask` -/
 def poll (L : Lens U SemState) (wid : Nat) (cxTask : Nat) : Prog U PollRes := do
   let s ← K.getL L
@@ -277,53 +325,18 @@ def poll (L : Lens U SemState) (wid : Nat) (cxTask : Nat) : Prog U PollRes := do
     if w.neverPolled && (willSucceed || s.fair) then K.switch else pure ()
     -- re-read: other tasks may have run at the scheduling point
     let s ← K.getL L
-    match s.getW wid with
-    | none => K.panic "poll: unknown Acquire"
-    | some w =>
-      let w := { w with neverPolled := false }
-      if w.hasPermits then
-        if w.isQueued then K.panic "assertion failed: !self.waiter.is_queued" else do
-        K.setL L (s.setW { w with completed := true })
-        pure (.ready true)
-      else if s.closed then
-        if w.isQueued then K.panic "assertion failed: !self.waiter.is_queued" else do
-        K.setL L (s.setW { w with completed := true })
-        pure (.ready false)
-      else if w.isQueued != w.waker.isSome then
-        K.panic "assertion `left == right` failed (is_queued vs waker)"
-      else if !(s.fair && w.isQueued) then do
-        let me ← K.me
-        let c ← K.clock
-        match s.acquirePermits w.n c with
-        | .error msg => K.panic msg
-        | .ok (.ok (s', pc)) =>
-          K.setL L (s'.setW w)
-          K.updateClock pc
-          if w.isQueued then do
-            let fin ← finSnapshot L
-            let s2 ← K.getL L
-            match s2.removeWaiterPure fin wid with
-            | .error msg => K.panic msg
-            | .ok (s3, effs) => do K.setL L s3; runEffs effs
-          else pure ()
-          let s4 ← K.getL L
-          match s4.getW wid with
-          | none => K.panic "poll: unknown Acquire"
-          | some w4 =>
-            K.setL L (s4.setW { w4 with hasPermits := true, completed := true, neverPolled := false })
-            reblockIfUnfair L
-            pure (.ready true)
-        | .ok (.error .noPermits) =>
-          let w' := { w with waker := some cxTask, taskId := me }
-          if !w.isQueued then
-            K.setL L ({ s with queue := s.queue ++ [wid] }.setW { w' with isQueued := true })
-          else K.setL L (s.setW w')
-          pure .pending
-        | .ok (.error .closed) => K.panic "internal error: entered unreachable code"
-      else do
-        let me ← K.me
-        K.setL L (s.setW { w with waker := some cxTask, taskId := me })
-        pure .pending
+    let me ← K.me
+    let c ← K.clock
+    let fin ← finSnapshot L
+    match s.pollPure wid me cxTask c fin with
+    | .error msg => K.panic msg
+    | .ok o => do
+      K.setL L o.s
+      match o.pc with
+      | some pc => K.updateClock pc
+      | none => pure ()
+      runEffs o.effs
+      pure o.res
 
 /-- `Drop for Acquire` -/
 def dropAcquire (L : Lens U SemState) (wid : Nat) : Prog U Unit := do
